@@ -8,6 +8,7 @@ import DendroModel.Theory.C01Bridge
 import DendroModel.Theory.C01Reseed
 import DendroModel.Theory.C01Sort
 import DendroModel.Theory.C01Small
+import DendroModel.Theory.C01Ext
 /-! C01 — property theorems.  Obligations are the theorems directly in `namespace DendroModel.C01`;
 helpers live in `DendroModel.C01.Aux`.  The statements about `PyBits.*` are about definitions regenerated
 from the current source on every run. -/
@@ -572,6 +573,11 @@ theorem encode_unrooted_flags_invariant (s c s' c' : Bool) (t : T) (hg : Good (T
   encode_unrooted_invariant s c s' c' t t hg h0 hg h0
     ((rooted_splits_iff_topology t t hg h0 hg h0).mp (fun _ => Iff.rfl)) z
 
+end DendroModel.C01
+
+namespace DendroModel.C01.Aux
+open DendroModel DendroModel.Hier DendroModel.C01
+
 /-- unrooted, sufficiency, about `encode`: if the trees left by the encoder are well formed, unifurcation-free and both
     seeded next to the lowest leaf `k` of their common leafset (seed of degree ≥ 3), equal sets of split masks force the same
     topology up to child order.  (`_partial`: only for this canonical seed position — superseded by
@@ -634,6 +640,11 @@ theorem encode_unrooted_determines_topology_partial (k : Nat) (s c s' c' : Bool)
       rcases (hU x).mpr (Or.inr h1) with h | h
       · exact absurd h hx0
       · exact h
+
+end DendroModel.C01.Aux
+
+namespace DendroModel.C01
+open DendroModel DendroModel.Hier DendroModel.C01.Aux
 
 /-! ### (e) the predicates as statements about taxon sets -/
 
@@ -745,6 +756,11 @@ theorem build_rooted_clades (all : Nat) (members : List Nat) (h : Hier.T) (ss : 
   refine ⟨key.1, key.2.1.trans (Bridge.starOf_mask members), fun x => ?_⟩
   rw [key.2.2 x, Bridge.starOf_clades, hfs]
 
+end DendroModel.C01
+
+namespace DendroModel.C01.Aux
+open DendroModel DendroModel.Hier DendroModel.C01
+
 /-- rooted rebuild of an encoding, about `encode` and `build` together (runner-up of audit H): when the namespace members
     are exactly the tree's taxa (the all-bits mask may still have more bits: removed members), the tree rebuilt from the
     split masks of `encode` **handed over in any order and multiplicity** is the encoded tree up to child order and
@@ -793,6 +809,11 @@ theorem rebuild_rooted_topology_partial (sup col : Bool) (t : T) (all : Nat) (me
     · rw [← toH_mask]; exact mask_mem_clades _
     · exact Bridge.single_mem_clades _ b (by rw [toH_mask]; exact (hmem b).mp hb)
     · exact hx
+
+end DendroModel.C01.Aux
+
+namespace DendroModel.C01
+open DendroModel DendroModel.Hier DendroModel.C01.Aux
 
 /-- rooted rebuild of an encoding (runner-up of audit H): as `rebuild_rooted_topology_partial`, without the suppression on
     the rebuilt side — `build` never creates a unifurcation (`Bridge.build_noUnif`).  ASSUMES `hmem`: the namespace members
@@ -1248,9 +1269,9 @@ open DendroModel DendroModel.Hier DendroModel.C01.Aux
     all members together, each member alone, and every non-empty split mask of the encoding — among them `L ∖ {k}`, the
     normalised split of the lowest leaf's own edge, so the tree's taxa other than `k` stay together and the absent members sit
     with leaf `k` at the root (on the lowest leaf's edge of the unrooted source).
-    (`_partial` only in this sense: the clade set pins the tree down up to child order — `clades_injective`, the result being
-    `Good` and `NoUnif` — but the explicit `Iso` to a reference tree built from `canonU` is not spelled out.) -/
-theorem rebuild_unrooted_extras_partial (sup col : Bool) (t : T) (all : Nat) (members ss : List Nat)
+    (The clade set pins the tree down up to child order; the explicit `Iso` to a reference tree built from `canonU` is
+    `rebuild_unrooted_extras` below.) -/
+theorem rebuild_unrooted_extras_clades (sup col : Bool) (t : T) (all : Nat) (members ss : List Nat)
     (hg : Good (T.toH t)) (h3 : Bridge.ThreeTaxa t.mask) (hm : members.Nodup)
     (hsub : bits t.mask ⊆ bits (maskL (members.map Hier.T.leaf))) (hall : bits (maskL (members.map Hier.T.leaf)) ⊆ bits all)
     (k : Nat) (hk : Lsb.lsb t.mask = 1 <<< k)
@@ -1753,6 +1774,411 @@ theorem ucanonT_eq_iff_same_splits_all (s c s' c' : Bool) (t u : T) (hgt : Good 
       exact Bridge.csort_iso _ _ hiso (sup_good _ hgt) (sup_good _ hgu)
     exact ⟨fun _ z => encode_unrooted_invariant s c s' c' t u hgt h0 hgu h0u hiso z, fun _ => heq⟩
 
+end DendroModel.C01
+
+namespace DendroModel.C01.Aux
+open DendroModel DendroModel.Hier DendroModel.C01
+
+theorem mem_bits_maskL (l : List Hier.T) (i : Nat) : i ∈ bits (maskL l) ↔ ∃ c ∈ l, i ∈ bits (Hier.mask c) := by
+  induction l with
+  | nil => simp [maskL, bits_zero]
+  | cons c cs ih =>
+    simp only [maskL, bits_or, Set.mem_union, ih, List.mem_cons]
+    constructor
+    · rintro (h | ⟨d, hd, hi⟩)
+      · exact ⟨c, Or.inl rfl, h⟩
+      · exact ⟨d, Or.inr hd, hi⟩
+    · rintro ⟨d, (rfl | hd), hi⟩
+      · exact Or.inl hi
+      · exact Or.inr ⟨d, hd, hi⟩
+
+/-- among well-formed siblings that include leaf `k`, only leaf `k` has bit `k` -/
+theorem hasBit_iff_leaf {k : Nat} {cs : List Hier.T} (hg : GoodL cs) (hk : Hier.T.leaf k ∈ cs) {c : Hier.T} (hc : c ∈ cs) :
+    (Hier.mask c).testBit k = true ↔ c = Hier.T.leaf k := by
+  constructor
+  · intro h
+    apply goodL_eq_of_inter hg hc hk
+    intro hz
+    have hd := (and_eq_zero_iff _ _).mp hz
+    have hk' : k ∈ bits (Hier.mask (Hier.T.leaf k)) := by simp [Hier.mask, bits_shift]
+    exact (Set.disjoint_left.mp hd) h hk'
+  · rintro rfl
+    show k ∈ bits (Hier.mask (Hier.T.leaf k))
+    simp [Hier.mask, bits_shift]
+
+/-- a well-formed sibling list all of whose members are the same tree has at most one member -/
+theorem goodL_const_length {x : Hier.T} : ∀ l : List Hier.T, GoodL l → (∀ c ∈ l, c = x) → l.length ≤ 1
+  | [], _, _ => by simp
+  | [_], _, _ => by simp
+  | a :: b :: r, hg, hall => by
+    exfalso
+    have ha : a = x := hall a (by simp)
+    have hb : b = x := hall b (by simp)
+    simp only [GoodL, maskL] at hg
+    obtain ⟨_, h0, hdis, _⟩ := hg
+    apply h0
+    have : Hier.mask a &&& Hier.mask b = 0 := by
+      apply Nat.eq_of_testBit_eq; intro i
+      have := congrArg (fun n => n.testBit i) hdis
+      simp only [Nat.testBit_and, Nat.testBit_or, Nat.zero_testBit] at this ⊢
+      cases h1 : (Hier.mask a).testBit i <;> cases h2 : (Hier.mask b).testBit i <;> simp_all
+    rw [ha, hb, Nat.and_self] at this
+    rw [ha]; exact this
+
+end DendroModel.C01.Aux
+
+namespace DendroModel.C01
+open DendroModel DendroModel.Hier DendroModel.C01.Aux
+
+/-- **unrooted rebuild over a namespace with extra members, full form**: the tree `build` makes of the unrooted encoding's split
+    masks (any order and multiplicity) over members ⊋ the tree's ≥ 3 taxa is — up to child order, `Iso` between two `Good`
+    unifurcation-free trees — this reference tree: a root carrying the lowest leaf `k`, the absent members, and ONE child holding
+    everything else on the tree, namely the canonical re-seeding `canonU k` of the encoded tree (the driver's) with leaf `k` taken
+    out of its seed.  So the encoded tree's unrooted topology is kept, and the absent members sit on the lowest leaf's edge.
+    No hypothesis that an absent member exists: with members = the tree's taxa the reference tree is `(k, rest)`, the same unrooted
+    tree (`rebuild_unrooted_topology`).  Supersedes the `_partial` form (now `rebuild_unrooted_extras_clades`). -/
+theorem rebuild_unrooted_extras (sup col : Bool) (t : T) (all : Nat) (members ss : List Nat)
+    (hg : Good (T.toH t)) (h3 : Bridge.ThreeTaxa t.mask) (hm : members.Nodup)
+    (hsub : bits t.mask ⊆ bits (maskL (members.map Hier.T.leaf))) (hall : bits (maskL (members.map Hier.T.leaf)) ⊆ bits all)
+    (k : Nat) (hk : Lsb.lsb t.mask = 1 <<< k)
+    (hss : ∀ x : Nat, x ∈ ss ↔ (x : Int) ∈ (encode (some false) sup col t).map (·.2)) :
+    ∃ cs, canonU k (Hier.sup (T.toH t)) = .node cs ∧ Hier.T.leaf k ∈ cs ∧
+      Iso (.node (Hier.T.leaf k :: .node (cs.filter (fun c => !(Hier.mask c).testBit k)) ::
+            (members.filter (fun b => !(t.mask.testBit b))).map Hier.T.leaf))
+          (build all members false ss) := by
+  have h0 : t.mask ≠ 0 := threeTaxa_ne_zero h3
+  have hkL : k ∈ bits t.mask := lsb_index_mem _ _ h0 hk
+  obtain ⟨hgb, hnb, hmb, hcl, hcompl⟩ := rebuild_unrooted_extras_clades sup col t all members ss hg h3 hm hsub hall k hk hss
+  obtain ⟨c1, c2, ⟨cs, hC, hkcs, h3cs⟩, c4, c5⟩ := canonU_is_canonical k t hg h3 hkL
+  rw [hC] at c1 c2 c4 c5
+  simp only [Good] at c1
+  simp only [NoUnif] at c2
+  simp only [Hier.mask] at c4
+  refine ⟨cs, hC, hkcs, ?_⟩
+  have hmT0 : Hier.mask (Hier.sup (T.toH t)) = t.mask := by rw [sup_mask, toH_mask]
+  have hmemM : ∀ b, b ∈ bits (maskL (members.map Hier.T.leaf)) ↔ b ∈ members := by
+    intro b; rw [Bridge.bits_maskL_leaves]; rfl
+  have hMne : maskL (members.map Hier.T.leaf) ≠ 0 := by
+    intro hz; have := hsub hkL; rw [hz, bits_zero] at this; exact this
+  have hcne : Hier.sdiff t.mask (1 <<< k) ≠ 0 := clades_ne_zero _ hgb (by rw [hmb]; exact hMne) _ hcompl
+  -- ss, minus 0, is the normalised split set of the canonical form
+  have hssU : ∀ x, (x ≠ 0 ∧ x ∈ ss) ↔ x ∈ usplits (1 <<< k) (.node cs) := by
+    intro x
+    rw [hss x, mem_encode_unrooted_of sup col t hg h0 k hk (Hier.sup (T.toH t)) hmT0 (fun m => by rw [sup_clades, toH_clades])]
+    constructor
+    · rintro ⟨hx0, y, hy, hyu⟩
+      have : y = x := by exact_mod_cast hy
+      subst this
+      rcases hyu with h | h
+      · exact absurd h hx0
+      · exact (c5 y).mpr h
+    · intro hx
+      refine ⟨?_, x, rfl, Or.inr ((c5 x).mp hx)⟩
+      rcases (usplits_canon c1 hkcs x).mp hx with rfl | ⟨c, hc, _, hxc⟩
+      · rw [c4]; exact hcne
+      · exact clades_ne_zero c (goodL_mem c1 hc).1 (goodL_mem c1 hc).2 x hxc
+  -- the two filtered lists
+  set others := cs.filter (fun c => !(Hier.mask c).testBit k) with hothd
+  set ex := members.filter (fun b => !(t.mask.testBit b)) with hexd
+  have hoth : ∀ c, c ∈ others ↔ c ∈ cs ∧ c ≠ Hier.T.leaf k := by
+    intro c; rw [hothd, List.mem_filter]
+    constructor
+    · rintro ⟨hc, hb⟩
+      refine ⟨hc, fun he => ?_⟩
+      have := (hasBit_iff_leaf c1 hkcs hc).mpr he
+      rw [this] at hb; exact Bool.noConfusion hb
+    · rintro ⟨hc, hne⟩
+      refine ⟨hc, ?_⟩
+      cases hb : (Hier.mask c).testBit k
+      · rfl
+      · exact absurd ((hasBit_iff_leaf c1 hkcs hc).mp hb) hne
+  have hexmem : ∀ b, b ∈ ex ↔ b ∈ members ∧ b ∉ bits t.mask := by
+    intro b; rw [hexd, List.mem_filter]
+    constructor
+    · rintro ⟨h1, h2'⟩; refine ⟨h1, fun hb => ?_⟩
+      have hb' : t.mask.testBit b = true := hb
+      rw [hb'] at h2'; exact Bool.noConfusion h2'
+    · rintro ⟨h1, h2'⟩; refine ⟨h1, ?_⟩
+      cases hb : t.mask.testBit b
+      · rfl
+      · exact absurd hb h2'
+  have hexnd : ex.Nodup := hm.filter _
+  have hothmask : maskL others = Hier.sdiff t.mask (1 <<< k) := by
+    apply bits_inj
+    ext i
+    rw [mem_bits_maskL, bits_sdiff, bits_shift]
+    constructor
+    · rintro ⟨c, hc, hi⟩
+      obtain ⟨hc1, hc2⟩ := (hoth c).mp hc
+      obtain ⟨o1, _, o3⟩ := other_child_clades c1 hkcs hc1 hc2 (mask_mem_clades c)
+      refine ⟨by rw [← c4]; exact o3 hi, fun hik => ?_⟩
+      rw [Set.mem_singleton_iff] at hik; subst hik; exact o1 hi
+    · rintro ⟨hi, hik⟩
+      rw [← c4, mem_bits_maskL] at hi
+      obtain ⟨c, hc, hic⟩ := hi
+      refine ⟨c, (hoth c).mpr ⟨hc, ?_⟩, hic⟩
+      rintro rfl
+      apply hik
+      simpa [Hier.mask, bits_shift] using hic
+  have hothlen : 2 ≤ others.length := by
+    have hlen := List.length_eq_countP_add_countP (fun c : Hier.T => (Hier.mask c).testBit k) (l := cs)
+    rw [List.countP_eq_length_filter, List.countP_eq_length_filter] at hlen
+    have hone : (cs.filter (fun c => (Hier.mask c).testBit k)).length ≤ 1 :=
+      goodL_const_length (x := Hier.T.leaf k) _ (goodL_filter _ c1) (by
+        intro c hc
+        obtain ⟨hc1, hc2⟩ := List.mem_filter.mp hc
+        exact (hasBit_iff_leaf c1 hkcs hc1).mp hc2)
+    have he : (cs.filter (fun a => decide ¬ ((Hier.mask a).testBit k = true))).length = others.length := by
+      rw [hothd]; congr 1; apply List.filter_congr; intro c _; cases (Hier.mask c).testBit k <;> rfl
+    omega
+  have hothgood : GoodL others := goodL_filter _ c1
+  have hothnu : NoUnifL others := Bridge.noUnifL_filter _ cs c2.2
+  -- the reference tree
+  have hRmask : maskL (Hier.T.leaf k :: .node others :: ex.map Hier.T.leaf) = maskL (members.map Hier.T.leaf) := by
+    apply bits_inj
+    simp only [maskL, Hier.mask, bits_or, hothmask, bits_sdiff, bits_shift, Bridge.bits_maskL_leaves]
+    ext b
+    simp only [Set.mem_union, Set.mem_singleton_iff, Set.mem_sdiff, Set.mem_ofPred_eq]
+    constructor
+    · rintro (rfl | ⟨h, _⟩ | h)
+      · exact (hmemM _).mp (hsub hkL)
+      · exact (hmemM b).mp (hsub h)
+      · exact ((hexmem b).mp h).1
+    · intro h
+      by_cases hbt : b ∈ bits t.mask
+      · by_cases hbk : b = k
+        · exact Or.inl hbk
+        · exact Or.inr (Or.inl ⟨hbt, hbk⟩)
+      · exact Or.inr (Or.inr ((hexmem b).mpr ⟨h, hbt⟩))
+  have hRgood : GoodL (Hier.T.leaf k :: .node others :: ex.map Hier.T.leaf) := by
+    simp only [GoodL, Good, Hier.mask, maskL]
+    refine ⟨trivial, shift_ne_zero k, ?_, hothgood, by rw [hothmask]; exact hcne, ?_, Bridge.goodL_leaves ex hexnd⟩
+    · rw [and_eq_zero_iff, bits_shift, bits_or, hothmask, bits_sdiff, bits_shift, Bridge.bits_maskL_leaves, Set.disjoint_left]
+      intro b hb hbe
+      rw [Set.mem_singleton_iff] at hb; subst hb
+      rcases hbe with h | h
+      · exact h.2 rfl
+      · exact ((hexmem _).mp h).2 hkL
+    · rw [hothmask, and_eq_zero_iff, bits_sdiff, Bridge.bits_maskL_leaves, Set.disjoint_left]
+      intro b hb hbe
+      exact ((hexmem b).mp hbe).2 hb.1
+  have hRnu : NoUnif (.node (Hier.T.leaf k :: .node others :: ex.map Hier.T.leaf)) := by
+    have hl : ∀ l : List Nat, NoUnifL (l.map Hier.T.leaf) := by
+      intro l
+      induction l with
+      | nil => simp [NoUnifL]
+      | cons b r ih => simp [NoUnifL, NoUnif, ih]
+    simp only [NoUnif, NoUnifL, List.length_cons]
+    exact ⟨by omega, trivial, ⟨hothlen, hothnu⟩, hl ex⟩
+  apply clades_injective _ _ (by simpa [Good] using hRgood) (by simp only [Hier.mask]; rw [hRmask]; exact hMne)
+    hgb (by rw [hmb]; exact hMne) hRnu hnb
+  intro x
+  rw [hcl x]
+  simp only [clades, cladesL, List.mem_cons, List.mem_append, hRmask, Bridge.cladesL_leaves, List.not_mem_nil, or_false]
+  constructor
+  · rintro (h | h | (h | h) | ⟨b, hb, rfl⟩)
+    · exact Or.inl h
+    · exact Or.inr (Or.inl ⟨k, (hmemM k).mp (hsub hkL), h⟩)
+    · refine Or.inr (Or.inr ((hssU x).mpr ((usplits_canon c1 hkcs x).mpr (Or.inl ?_))))
+      rw [h, hothmask, c4]
+    · obtain ⟨c, hc, hxc⟩ := (mem_cladesL _ _).mp h
+      obtain ⟨hc1, hc2⟩ := (hoth c).mp hc
+      exact Or.inr (Or.inr ((hssU x).mpr ((usplits_canon c1 hkcs x).mpr (Or.inr ⟨c, hc1, hc2, hxc⟩))))
+    · exact Or.inr (Or.inl ⟨b, ((hexmem b).mp hb).1, rfl⟩)
+  · rintro (h | ⟨b, hb, rfl⟩ | h)
+    · exact Or.inl h
+    · by_cases hbt : b ∈ bits t.mask
+      · by_cases hbk : b = k
+        · subst hbk; exact Or.inr (Or.inl rfl)
+        · refine Or.inr (Or.inr (Or.inl (Or.inr ?_)))
+          apply Bridge.single_mem_cladesL
+          rw [hothmask, bits_sdiff, bits_shift]
+          exact ⟨hbt, hbk⟩
+      · exact Or.inr (Or.inr (Or.inr ⟨b, (hexmem b).mpr ⟨hb, hbt⟩, rfl⟩))
+    · rcases (usplits_canon c1 hkcs x).mp ((hssU x).mp h) with h | ⟨c, hc, hck, hxc⟩
+      · refine Or.inr (Or.inr (Or.inl (Or.inl ?_)))
+        rw [h, hothmask, c4]
+      · exact Or.inr (Or.inr (Or.inl (Or.inr ((mem_cladesL _ _).mpr ⟨c, (hoth c).mpr ⟨hc, hck⟩, hxc⟩))))
+
+
+/-! ## extension round 3: kernels regenerated from inside the anchored methods (tie A), `indexes_of_set_bits`, multiplicity,
+histories of encodings, edits and queries -/
+
+/-- **exactly one bipartition per retained edge**: the leafset components of `encode`, as a multiset, are the leafset masks of
+    the nodes of the tree the encoder leaves behind — one pair per node, none twice, none missing (with `encode_pairs_spec`
+    for what the second component of each pair is) -/
+theorem encode_one_pair_per_node (r : Option Bool) (s c : Bool) (t : T) :
+    ((encode r s c t).map (·.1)).Perm ((encodeTree r s c t).nodes.map T.mask) ∧
+      (encode r s c t).length = (encodeTree r s c t).nodes.length := by
+  have e : (encode r s c t).map (·.1) = (encodeTree r s c t).masksPost := by
+    simp [encode, List.map_map, Function.comp_def]
+  have hp := Ext.masksPost_perm (encodeTree r s c t)
+  refine ⟨e ▸ hp, ?_⟩
+  have := hp.length_eq
+  rw [← e] at this
+  simpa using this
+
+/-- `bitprocessing.indexes_of_set_bits(s)` (the `while` loop of `set_bit_index_iter`, run by the driver as `sbiLoop` with fuel
+    `bit length`): with the default arguments, and with `one_based`, the result is exactly the indices of the set bits of `s`,
+    in increasing order — the fuel suffices and no bit is skipped or reported twice -/
+theorem indexes_of_set_bits_spec (s : Nat) (oneBased : Bool) :
+    indexesOfSetBits (s : Int) (-1) oneBased false =
+      ((List.range (s.log2 + 1)).filter (fun j => s.testBit j)).map (fun (j : Nat) => (if oneBased then 1 else 0) + (j : Int)) :=
+  Ext.indexes_default s oneBased
+
+/-- … hence `Bipartition.leafset_taxa` / `bitmask_taxa_list` enumerate exactly the taxa whose bit is in the mask: an index is
+    reported iff that bit is set -/
+theorem indexes_of_set_bits_mem (s j : Nat) : ((j : Int) ∈ indexesOfSetBits (s : Int) (-1) false false) ↔ j ∈ bits s :=
+  Ext.mem_indexes_default s j
+
+/-! ### tie (A), second part: the hand-written model equals the kernels regenerated from the method bodies -/
+
+/-- `is_leafset_nested_within`: the model's `isNested` is the regenerated test -/
+theorem kernel_leafset_nested (a b f : Int) : C01Kernels.leafset_nested a f b = isNested a b f := Ext.k_leafset_nested a b f
+/-- `is_nested_within` (both flags, both rooting states) -/
+theorem kernel_nested_within (r m : Bool) (lf sp olf osp f : Int) :
+    C01Kernels.nested_within r m lf sp olf osp f = nestedWithin r m lf sp olf osp f := Ext.k_nested_within r m lf sp olf osp f
+/-- `Bipartition.normalize`, both conventions; "lsb0" is the static `normalize_bitmask` (operands commuted in the source) -/
+theorem kernel_normalize (b f lo : Int) :
+    C01Kernels.normalize_lsb0 b f lo = normalizeConv false b f lo ∧ C01Kernels.normalize_lsb1 b f lo = normalizeConv true b f lo ∧
+      C01Kernels.normalize_lsb0 b f lo = PyBits.normalize_bitmask b f lo :=
+  ⟨Ext.k_normalize_lsb0 b f lo, Ext.k_normalize_lsb1 b f lo, Ext.k_normalize_lsb0_static b f lo⟩
+/-- `compile_split_bitmask` / `compile_tree_leafset_bitmask`: the encoder's `splitOf` and the object-level `compileBip` are the
+    regenerated rooted/unrooted dispatch on the regenerated lowest relevant bit -/
+theorem kernel_compile_split (r : Bool) (L m : Nat) :
+    splitOf r L m = C01Kernels.compile_split r (m : Int) (L : Int) (lsbOf L) := Ext.k_compile_split r L m
+theorem kernel_compile_bipartition (r : Bool) (L m : Int) (h : L ≠ 0) :
+    C01Kernels.lowest_relevant_bit L = some (PyBits.least_significant_set_bit L) ∧
+    compileBip r L m = (pyAnd m L, C01Kernels.compile_split r (pyAnd m L) L (PyBits.least_significant_set_bit L)) :=
+  ⟨Ext.k_lowest_relevant_bit L h, Ext.k_compileBip r L m⟩
+/-- `encode_bipartitions`: when the basal bifurcation is collapsed, when a node is suppressed, how child masks accumulate -/
+theorem kernel_encode_conditions (c s : Bool) (r : Option Bool) (n : Nat) (ch : T) (cs : List T) :
+    C01Kernels.collapse_cond c (r == some true) (n : Int) = (c && r != some true && n == 2) ∧
+    C01Kernels.suppress_cond s (n : Int) = (s && n == 1) ∧
+    ((T.maskL (ch :: cs) : Nat) : Int) = C01Kernels.accumulate (T.mask ch : Int) (T.maskL cs : Int) :=
+  ⟨Ext.k_collapse_cond c r n, Ext.k_suppress_cond s n, Ext.k_accumulate ch cs⟩
+/-- `from_split_bitmasks`, head filter: `prep` is the regenerated loop body -/
+theorem kernel_head_filter (r : Bool) (all s : Nat) :
+    C01Kernels.head_filter r (s : Int) (all : Int) = (prep all r s).map Int.ofNat := Ext.k_head_filter r all s
+/-- `from_split_bitmasks`, greedy insertion: the four mask tests of `addSplit` / `Hier.ins` are the regenerated ones -/
+theorem kernel_insertion_tests (t : Hier.T) (S M : Nat) :
+    (addSplit t S = if C01Kernels.skip_not_in_root (S : Int) (Hier.mask t : Int) then t else Hier.ins S t) ∧
+    C01Kernels.climb_further (S : Int) (M : Int) = !(S &&& M == S) ∧
+    C01Kernels.already_present (S : Int) (M : Int) = (M == S) ∧
+    C01Kernels.child_meets (S : Int) (M : Int) = (M &&& S != 0) :=
+  ⟨Ext.k_addSplit t S, Ext.k_climb_further S M, Ext.k_already_present S M, Ext.k_child_meets S M⟩
+/-- `is_compatible_with_bipartition`: when the tree is re-encoded first -/
+theorem kernel_reencode_first (u : Bool) (o : TreeObj) :
+    reencodeFirst u o = C01Kernels.reencode_first u (match o.stored with | some (enc, _) => !enc.isEmpty | none => false) :=
+  Ext.k_reencode_first u o
+/-- `TaxonNamespace.all_taxa_bitmask` / `taxon_bitmask` -/
+theorem kernel_namespace_masks (n i : Nat) :
+    C01Kernels.all_taxa_bitmask (n : Int) = ((allMask n : Nat) : Int) ∧ C01Kernels.taxon_bitmask (i : Int) = ((taxonBit i : Nat) : Int) :=
+  ⟨Ext.k_all_taxa_bitmask n, Ext.k_taxon_bitmask i⟩
+/-- `set_bit_index_iter`: initialisation and one turn of the loop are the regenerated expressions -/
+theorem kernel_set_bit_loop (s masked fill : Int) (std ob om : Bool) (fuel : Nat) (idx tb : Int) :
+    (indexesOfSetBits s fill ob om =
+      sbiLoop (C01Kernels.sbi_masked s fill) fill (C01Kernels.sbi_standard om) (sbiFuel (C01Kernels.sbi_masked s fill))
+        (C01Kernels.sbi_first_index ob) C01Kernels.sbi_first_bit) ∧
+    (sbiLoop masked fill std (fuel + 1) idx tb =
+      if C01Kernels.sbi_continue tb masked then
+        (if C01Kernels.sbi_yield masked tb then [idx] else []) ++
+          sbiLoop masked fill std fuel (if C01Kernels.sbi_advance std fill tb then idx + 1 else idx) (C01Kernels.sbi_next_bit tb)
+      else []) :=
+  ⟨Ext.k_sbi_init s fill ob om, Ext.k_sbi_step masked fill std fuel idx tb⟩
+
+/-! ### histories: encode / edit / query on one tree object (`hstep`, `hrun` — what the driver's op `hist` runs) -/
+
+/-- a query with the default flag re-encodes first, in ANY state (whatever history of encodings, edits and queries led to it):
+    its answer is the answer for the tree as it stands, and the state afterwards stores that tree's encoding -/
+theorem history_default_query_is_fresh (o : TreeObj) (ops : List HOp) (s : Int) :
+    let o' := (hrun o ops).1
+    hstep o' (.query false s) =
+      (doEncode o' true true,
+        some (treeCompatible (encode o'.rooted true true o'.tree) (encodeTree o'.rooted true true o'.tree).mask s)) := by
+  simp [hstep, reencodeFirst, doEncode]
+
+/-- … hence, as sets: after any history a default query on a well-formed rooted tree answers true iff the clade is disjoint from
+    or nested with the leafset below EVERY edge of the tree as it stands (`tree_compatible_rooted_sets`) -/
+theorem history_default_query_rooted_sets (o : TreeObj) (ops : List HOp) (s : Nat)
+    (hr : (hrun o ops).1.rooted = some true) (hg : Good (T.toH (hrun o ops).1.tree)) (h0 : (hrun o ops).1.tree.mask ≠ 0)
+    (hs : bits s ⊆ bits (hrun o ops).1.tree.mask) :
+    (hstep (hrun o ops).1 (.query false (s : Int))).2 = some true ↔
+      ∀ m ∈ (hrun o ops).1.tree.masksPost, Disjoint (bits m) (bits s) ∨ bits m ⊆ bits s ∨ bits s ⊆ bits m := by
+  have h := history_default_query_is_fresh o ops (s : Int)
+  simp only at h
+  rw [h, hr, Option.some.injEq]
+  exact tree_compatible_rooted_sets _ s hg h0 hs
+
+/-- … and on a well-formed unrooted tree, for a normalised split (four-quadrant compatibility with EVERY edge) -/
+theorem history_default_query_unrooted_sets (o : TreeObj) (ops : List HOp) (s k : Nat)
+    (hr : (hrun o ops).1.rooted = some false) (hg : Good (T.toH (hrun o ops).1.tree)) (h0 : (hrun o ops).1.tree.mask ≠ 0)
+    (hk : Lsb.lsb (hrun o ops).1.tree.mask = 1 <<< k) (hs : bits s ⊆ bits (hrun o ops).1.tree.mask) (hks : k ∉ bits s) :
+    (hstep (hrun o ops).1 (.query false (s : Int))).2 = some true ↔
+      ∀ m ∈ (hrun o ops).1.tree.masksPost, Quad (bits m) (bits s) (bits (hrun o ops).1.tree.mask) := by
+  have h := history_default_query_is_fresh o ops (s : Int)
+  simp only at h
+  rw [h, hr, Option.some.injEq]
+  exact tree_compatible_unrooted_sets _ s k hg h0 hk hs hks
+
+/-- with `is_bipartitions_updated=True` and a non-empty stored encoding nothing is recomputed: the state is left alone and the
+    answer is computed from the STORED pairs and the STORED tree leafset, whatever the tree looks like now — the documented
+    contract (the caller vouches for the encoding), and exactly the staleness the query→edit→query oracle guards against -/
+theorem history_updated_query_uses_stored (o : TreeObj) (enc : List (Nat × Int)) (L : Nat) (s : Int)
+    (h : o.stored = some (enc, L)) (hne : enc ≠ []) :
+    hstep o (.query true s) = (o, some (treeCompatible enc L s)) := by
+  have he : enc.isEmpty = false := by cases enc <;> simp_all
+  simp [hstep, reencodeFirst, h, he]
+
+/-- an edit never touches the stored encoding, an explicit encoding replaces it by the encoding of the tree as it stood -/
+theorem history_edit_and_encode (o : TreeObj) (t : T) (sup col : Bool) :
+    (hstep o (.edit t)).1.stored = o.stored ∧ (hstep o (.edit t)).1.tree = t ∧
+    (hstep o (.encode sup col)).1.stored = some (encode o.rooted sup col o.tree, (encodeTree o.rooted sup col o.tree).mask) ∧
+    (hstep o (.encode sup col)).1.tree = encodeTree o.rooted sup col o.tree := by
+  simp [hstep, doEncode]
+
+/-- **unrooted rebuild with fewer than three taxa** (the case `rebuild_unrooted_topology` leaves out): every split mask of the
+    unrooted encoding of a well-formed tree with one or two taxa has at most one member, so the head filter of `build` drops them
+    all and the rebuilt tree is the star over the namespace members — whatever the members (extras included), the order and the
+    multiplicity of the list handed over.  When the members are exactly the tree's taxa this star is the encoded tree (`Iso`,
+    both sides `Good`): there is one unrooted topology per leaf set of size ≤ 2. -/
+theorem rebuild_unrooted_small (sup col : Bool) (t : T) (all : Nat) (members ss : List Nat)
+    (hg : Good (T.toH t)) (h0 : t.mask ≠ 0) (h3 : ¬ Bridge.ThreeTaxa t.mask)
+    (hss : ∀ x : Nat, x ∈ ss → (x : Int) ∈ (encode (some false) sup col t).map (·.2)) :
+    build all members false ss = Hier.starOf members ∧
+      (members.Nodup → (∀ b, b ∈ members ↔ b ∈ bits t.mask) → Iso (Hier.sup (T.toH t)) (build all members false ss)) := by
+  obtain ⟨k, hk, hkL, _⟩ := lsb_spec t.mask (by omega)
+  have hsing : ∀ x, x ∈ ss → (bits x).Subsingleton := by
+    intro x hx
+    obtain ⟨m, _, e⟩ := (mem_encode_unrooted sup col t hg h0 _).mp (hss x hx)
+    have e' : Hier.norm t.mask (1 <<< k) m = x := by rw [hk] at e; exact_mod_cast e
+    have hsub : bits x ⊆ bits t.mask := by rw [← e']; exact norm_sub _ _ _
+    have hav : k ∉ bits x := by rw [← e']; exact norm_avoid _ _ _
+    intro a ha b hb
+    by_contra hab
+    exact h3 ⟨k, a, b, hkL, hsub ha, hsub hb, fun h => hav (h ▸ ha), fun h => hav (h ▸ hb), hab⟩
+  have hnone : ∀ x ∈ ss, prep all false x = none := by
+    intro x hx
+    have hs' : (bits (x &&& all)).Subsingleton := by
+      rw [bits_and]; exact (hsing x hx).anti Set.inter_subset_left
+    have hz := (pred_and_zero_iff (x &&& all)).mpr hs'
+    unfold prep
+    simp [hz]
+  have hb : build all members false ss = Hier.starOf members := by
+    unfold build
+    rw [List.filterMap_eq_nil_iff.mpr hnone]; rfl
+  refine ⟨hb, fun hm hmem => ?_⟩
+  rw [hb]
+  have hne : members ≠ [] := by
+    intro he; apply h0; apply bits_inj; rw [bits_zero]
+    ext b; rw [← hmem b, he]; simp
+  have hstar : maskL (members.map Hier.T.leaf) = t.mask := by
+    apply bits_inj; rw [Bridge.bits_maskL_leaves]; ext b; exact hmem b
+  have ht0 : Hier.mask (T.toH t) ≠ 0 := by rw [toH_mask]; exact h0
+  have hmt : Hier.mask (Hier.sup (T.toH t)) = t.mask := by rw [sup_mask, toH_mask]
+  exact Bridge.small_iso _ _ (sup_good _ hg) (Bridge.starOf_good members hm) (sup_noUnif _ hg ht0) (Bridge.starOf_noUnif members hne)
+    (by rw [hmt, Bridge.starOf_mask, hstar]) (by rw [hmt]; exact h3)
+
 /-! non-vacuity: the hypotheses are met by concrete trees -/
 example : Good (T.toH (.node 0 none none none [.node 1 (some 0) none none [], .node 2 none none none
     [.node 3 (some 2) none none [], .node 4 (some 3) none none []]])) := by
@@ -1838,10 +2264,32 @@ example : Good (T.toH (.node 0 none none none [.node 1 (some 1) none none [], .n
 example : Hier.render (ucanonT (.node 0 none none none [.node 1 (some 1) none none [], .node 2 (some 5) none none []])) = "(1,5)" ∧
     Hier.render (ucanonT (.node 0 none none none [.node 1 none none none [.node 2 (some 5) none none []], .node 3 (some 1) none none []]))
       = "(1,5)" := by decide
--- rebuild_unrooted_extras_partial: exT (taxa 0,2,3) over members 0,1,2,3: the absent member 1 sits with the lowest leaf 0 at the
+-- rebuild_unrooted_extras_clades / rebuild_unrooted_extras: exT (taxa 0,2,3) over members 0,1,2,3: the absent member 1 sits with the lowest leaf 0 at the
 -- root, the other taxa L∖{0} = {2,3} = 12 stay together
 example : Hier.render (build 15 [0, 1, 2, 3] false [0, 8, 12, 4, 12]) = "(0,1,(2,3))" := by decide
 example : Hier.sdiff (T.mask exT) (1 <<< 0) = 12 := by decide
+-- rebuild_unrooted_extras: exQ1 = ((0,1),(2,3)) over members 0..4: canonU 0 = (0,1,(2,3)); reference (0,(1,(2,3)),4); the rebuild is it
+example : Hier.render (canonU 0 (Hier.sup (T.toH exQ1))) = "(0,1,(2,3))" := by decide
+example : (encode (some false) true true exQ1).map (·.2) = [14, 2, 12, 4, 8, 0] := by decide
+example : Hier.render (build 31 [0, 1, 2, 3, 4] false [0, 12, 8, 4, 2, 14]) = "(0,4,(1,(2,3)))" := by decide
+-- round 3.  encode_one_pair_per_node: exT unrooted, basal bifurcation collapsed: four nodes, four pairs
+example : (encodeTree (some false) true true exT).nodes.length = 4 ∧ (encode (some false) true true exT).length = 4 := by decide
+-- indexes_of_set_bits_spec: 22 = 0b10110
+example : indexesOfSetBits 22 (-1) false false = [1, 2, 4] ∧ indexesOfSetBits 22 (-1) true false = [2, 3, 5]
+    ∧ indexesOfSetBits 22 6 false true = [0, 1] := by decide
+-- kernels on concrete values (the same numbers the Python side produces)
+example : compileBip false 14 6 = (6, 8) ∧ compileBip true 14 6 = (6, 6) ∧ nestedWithin true false 4 4 6 6 14 = true := by decide
+example : C01Kernels.head_filter false 13 15 = some 2 ∧ C01Kernels.head_filter true 13 15 = some 13
+    ∧ C01Kernels.head_filter true 8 15 = none := by decide
+-- histories: query (re-encodes), edit to the other quartet, then a stale `updated` query still answers for the old tree while a
+-- default query answers for the new one
+example : (hrun { tree := exQ1, rooted := some true, stored := none }
+    [.query false 3, .edit exQ2, .query true 3, .query false 3]).2 = [some true, none, some true, some false] := by decide
+example : (hrun { tree := exQ1, rooted := some true, stored := none } [.query false 3]).1.rooted = some true := by decide
+-- rebuild_unrooted_small: the cherry (t1,t5) over members 1,5 (and with an extra member 3): the star
+example : (encode (some false) true true (.node 0 none none none [.node 1 (some 1) none none [], .node 2 (some 5) none none []])).map (·.2)
+    = [32, 32, 0] := by decide
+example : Hier.render (build 63 [1, 5] false [32, 0, 32]) = "(1,5)" ∧ Hier.render (build 63 [1, 3, 5] false [32, 0, 32]) = "(1,3,5)" := by decide
 end
 
 end DendroModel.C01
